@@ -15,6 +15,11 @@ class InjectedFault(RuntimeError):
     """The exception raised by every injected fault."""
 
 
+class InjectedAbort(BaseException):
+    """User code that is interrupted rather than failing (SystemExit / KeyboardInterrupt style):
+    raised by some generator bodies."""
+
+
 # ----------------------------------------------------------------------------------
 # Scheduler: owns the per-element keys (the simulated hashes) and the choice-point log
 # ----------------------------------------------------------------------------------
